@@ -8,7 +8,7 @@ SIM = {
 def sim(id, ref, text, note, technique="stateful property-based testing: generated fault/operation sequences interpreted against real RawNodes in a deterministic cluster simulator, ghost-state invariant monitors after every library call, proptest shrinking + delta debugging"):
     SIM[id] = (ref, technique, text, note)
 
-COMMON_NOTE = ("Trusted base: the simulator (engine/src/world.rs), its application contract AC1-AC14 (DESIGN.md 2.2), SimStore as a conforming Storage, "
+COMMON_NOTE = ("Trusted base: the simulator (engine/src/world.rs), its application contract AC1-AC15 (DESIGN.md 2.2), SimStore as a conforming Storage, "
                "the monitor implementation; exploration is random (seeded) and bounded by case count and sequence length - absence of violations is not established.")
 
 S = "E1 deterministic cluster simulator: "
@@ -17,7 +17,7 @@ sim("C02", "DESIGN.md 6/C02", S+"leader_of[term] map checked after every library
 sim("C03", "DESIGN.md 6/C03", S+"(A) every leader's log is compared against all entries committed by leaders of earlier terms (commit_term ghost); (B) every vote/pre-vote grant is checked at generation time against the voter's own last (term,index).", COMMON_NOTE)
 sim("C04", "DESIGN.md 6/C04", S+"every leader commit advance is checked against the simulator-owned durable disk images (majority of each voter set holds (index, term) durably), every non-leader commit advance against commit_term; plus: a leader's matched index for a peer must be backed by an entry that was durable on that peer.", COMMON_NOTE)
 sim("C05", "DESIGN.md 6/C05", S+"after every log change the node's logical log (storage+unstable) is compared with every other node's (running: volatile, crashed: disk) for log matching; leader append-only and committed-prefix immutability per call.", COMMON_NOTE)
-sim("C06", "DESIGN.md 6/C06", S+"the simulator decides when a message leaves a node (AC2) and judges it at that instant against what has ever been durable on the sender (term, vote per term, entries, snapshot); restart state is compared with released promises. Listed finding F1 (sole-voter leader) is recognised by an exact signature.", COMMON_NOTE)
+sim("C06", "DESIGN.md 6/C06", S+"the simulator decides when a message leaves a node (AC2) and judges it at that instant against what has ever been durable on the sender (term, vote per term, entries, snapshot); restart state is compared with released promises. The former finding F1 (sole-voter leader; repaired in /repo) is kept as two plain regressions.", COMMON_NOTE)
 sim("C07", "DESIGN.md 6/C07", S+"per-node hand-off ghost (next index to apply, last handed hard state, entries handed for persistence) checked on every Ready/LightReady; persisted-only rule against the disk image; must_sync two-sided; has_ready() <=> ready() non-empty decided on a clone (hook H1).", COMMON_NOTE)
 sim("C08", "DESIGN.md 6/C08", S+"every read request records the global maximum commit index at issue time; every ReadState must appear on the issuing node with index >= that bound (Safe mode forced).", COMMON_NOTE)
 sim("C09", "DESIGN.md 6/C09", S+"(a) what a leader appends on every proposal (incl. batched MsgPropose and auto-leave) against the one-pending-change / joint rules, (b,d) pre-state of every election start, (c) configuration as a function of the applied index across apply, snapshot install and restart.", COMMON_NOTE)
